@@ -77,8 +77,10 @@ def get_chain_name(chain):
 @contextlib.contextmanager
 def temp_var(vm):
     params = vm.get_all_dic()
-    yield vm
-    vm.set_all(params)
+    try:
+        yield vm
+    finally:
+        vm.set_all(params)
 
 
 def flatten_all(x):
